@@ -73,7 +73,50 @@ func init() {
 				}
 			}
 		}
+		// extreme values: totals near CometBFT's limit (~1.15e18); handed to TLC as base-10^6 limbs
+		if seed == 0 {
+			bigDom := []int64{100000000000000000, 200000000000000000, 300000000000000001, 50000000000000000, 99999999999999999, 7}
+			for _, ms := range multisets(bigDom, 4) {
+				var tot int64
+				for _, x := range ms {
+					tot += x
+				}
+				if tot > 1100000000000000000 {
+					continue
+				}
+				for _, p := range []uint32{1, 10, 25, 30, 34, 40, 50, 75, 99, 100} {
+					var in []providertypes.ConsensusValidator
+					inMap := map[string]any{}
+					for i, pw := range ms {
+						in = append(in, providertypes.ConsensusValidator{ProviderConsAddr: []byte(names[i]), Power: pw})
+						inMap[names[i]] = limbs(pw)
+					}
+					out := providerkeeper.NoMoreThanPercentOfTheSum(in, p)
+					outMap := map[string]any{}
+					negs := []any{}
+					for _, v := range out {
+						pw := v.Power
+						if pw < 0 {
+							negs = append(negs, string(v.ProviderConsAddr))
+							pw = -pw
+						}
+						outMap[string(v.ProviderConsAddr)] = limbs(pw)
+					}
+					w.rec.emit("v", "VecPowerCapBig", map[string]any{"p": int(p), "in": inMap}, map[string]any{"out": outMap, "negs": negs}, nil)
+				}
+			}
+		}
 		_ = fmt.Sprint
 		return w
 	}
+}
+
+// limbs splits a non-negative number into four base-10^6 limbs, least significant first.
+func limbs(x int64) []any {
+	out := make([]any, 4)
+	for i := 0; i < 4; i++ {
+		out[i] = x % 1000000
+		x /= 1000000
+	}
+	return out
 }
